@@ -198,12 +198,12 @@ impl Router {
             return false;
         }
 
+        let server = self.read_server();
+
         #[cfg(feature = "verif-hooks")]
         crate::hooks::emit(crate::hooks::Event::WorkerComputing {
             id: hook_id.clone(),
         });
-
-        let server = self.read_server();
 
         let response = match request.method.as_str() {
             "textDocument/inlayHint" => InlayHintParams::deserialize(request.params)
